@@ -23,7 +23,7 @@ CURATED = {
     'C16': [('src/html/mod.rs', r'impl Token / fn tag_string')],
     'C05': [('src/action/mod.rs', r'impl Action / fn get_target')],
     'C19': [('src/action/mod.rs', r'impl (UnitTrace|WithTargetUnitTrace) / fn \w+'), ('src/api/explain_request.rs', r'.* / fn create_result_(from|without)_project'),
-            ('src/api/test_examples.rs', r'.* / fn \w+'), ('src/api/unit_ids.rs', r'.* / fn \w+'), ('src/api/rules_message.rs', r'impl RuleChangeSet / fn is_empty')],
+            ('src/api/test_examples.rs', r'.* / fn (?!test_example$)\w+'), ('src/api/unit_ids.rs', r'.* / fn (?!create_result$)\w+'), ('src/api/rules_message.rs', r'impl RuleChangeSet / fn is_empty')],
     'C09': [('src/http/request.rs', r'impl Request / fn new'), ('src/http/request.rs', r'impl FromStrforRequest / fn from_str'),
             ('src/router_config.rs', r'.*fn (default|default_as_false|default_marketing_parameters|hash)')],
     'C10': [('src/marker/mod.rs', r'impl Marker / fn (new|format)'), ('src/marker/mod.rs', r'impl StaticOrDynamic / fn compile')],
